@@ -53,7 +53,7 @@ Definition post_eqb (m : outcome * dict * dict) (o : outcome * tree * tree * boo
   let '(mo, m1, m2) := m in
   let '(oo, o1, o2, intact) := o in
   (* the pure model shares nothing and mutates no source: its flag is [true] *)
-  outcome_eqb mo oo && tree_eqb (Node m1) o1 && tree_eqb (Node m2) o2 && intact.
+  outcome_eqb mo oo && tree_equiv (Node m1) o1 && tree_equiv (Node m2) o2 && intact.
 
 Fixpoint aborted_at (tr : list (outcome * dict * tree)) (n : nat) : option nat :=
   match tr with
@@ -77,7 +77,8 @@ Definition corr_cfg (c_fs : fsys) (c_init : init_args) (c_pre : list sop) (c_int
               | OCloned lo lc vo vc intact post =>
                   intact &&
                   trees_equiv (levels10 (s_cfg so)) lo && trees_equiv (levels10 cl) lc &&
-                  tree_eqb (Node (c_cache (s_cfg so))) vo && tree_eqb (Node (c_cache cl)) vc &&
+                  (* views as mappings: key order is incidental insertion order (see C06Corr) *)
+                  tree_equiv (Node (c_cache (s_cfg so))) vo && tree_equiv (Node (c_cache cl)) vc &&
                   all2 post_eqb (run_post c_fs so (sstart cl) c_post) post
               | _ => false
               end
